@@ -348,12 +348,15 @@ class Mesh(object):
             by.setdefault(p, []).append(n)
         return [v for v in by.values() if len(v) > 1]
 
-    def hanging_nodes(self, tol):
+    def hanging_nodes(self, tol, only_nodes=None):
         """(node, edge) pairs where a node that is not an end of the edge lies within tol of the edge's
-        interior.  Only used (column-referenced) nodes and column sides are considered."""
+        interior.  Only used (column-referenced) nodes and column sides are considered; only_nodes restricts
+        the nodes examined (all sides are still examined)."""
         used = set()
         for seq in self.columns.values():
             used.update(seq)
+        if only_nodes is not None:
+            used &= set(only_nodes)
         edges = list(self.edge_columns())
         out = []
         boxes = []
